@@ -26,10 +26,11 @@ pub fn all() -> Vec<MonitorDef> {
 	vec![c01::def(), c02::def(), c03::def(), c04::def(), c05::def(), c06::def(), c07::def(), c08::def(), c09::def(), c10::def(), c11::def(), c12::def(), c13::def(), c14::def(), c15::def(), c16::def(), c17::def(), c18::def(), c19::def(), c20::def()]
 }
 
-/// non-property sub-commands (helpers used by the driver); none yet
+/// non-property sub-commands (helpers used by the driver)
 pub fn special(id: &str, args: &[String]) -> Option<i32> {
 	match id {
 		"c12-write" => Some(c12sys::child_write(args)),
+		"c19-corpus" => Some(crate::fuzzlib::dump_corpus(args)),
 		_ => None,
 	}
 }
